@@ -84,6 +84,24 @@ def gen(r) -> Dict[str, Any]:
     return base_scenario(r, times)
 
 
+def derived_scenario(r) -> Dict[str, Any]:
+    """Directed: a handler pushes an event of the current clock value into a derived source (handled in the next pass)
+    and, in the same invocation or another one of that pass, schedules a job that is already due."""
+    sc = base_scenario(r, [r.choice(SLOTS) for _ in range(r.choice([0, 1, 2]))])
+    nsrc = len(sc["sources"])
+    sc["derived"] = 1
+    hid = max(s_["id"] for s_ in sc["subscriptions"])
+    sc["subscriptions"].append({"kind": "h", "id": hid + 1, "source": nsrc, "steps": r.choice([0, 1]), "fail_on": [],
+                                "push": [], "schedule": []})
+    prim = [s_ for s_ in sc["subscriptions"] if s_["source"] < nsrc]
+    for n in range(r.choice([1, 2, 3])):
+        on = r.randrange(0, 3)
+        r.choice(prim)["push"].append({"on": on, "to": 0, "delay": 0})
+        r.choice(prim)["schedule"].append({"on": on, "job": {"dt": r.choice([-7.0, -1.0, -0.5, 0.0]), "steps": r.choice([0, 1]),
+                                                            "fail": False, "schedule": []}})
+    return sc
+
+
 def sweep_cases():
     """Every insertion order of every multiset of <= 4 jobs over 6 distinguished slots (incl. a duplicate time),
     plus all permutations of 5 distinct slots: the finite space of the 'whatever order they were scheduled in' clause."""
@@ -137,6 +155,13 @@ def run_shard(ctx: Context, res: ShardResult) -> None:
                 res.errors.append("ran out of time")
                 break
             evaluate(gen(ctx.rng("c13", i)), res)
+        # directed: derived events of the current clock value next to jobs scheduled into the past (own random stream)
+        for k in range(ctx.shard, 400 if ctx.tier == "quick" else 40000, ctx.nshards):
+            if ctx.out_of_time():
+                res.errors.append("ran out of time")
+                break
+            evaluate(derived_scenario(ctx.rng("c13derived", k)), res)
+            res.count("derived_same_time_scenarios")
         # exhaustive insertion orders (small: a few thousand runs); split over the shards, both tiers
         for k, times in enumerate(sweep_cases()):
             if k % ctx.nshards != ctx.shard:
